@@ -17,6 +17,7 @@ import (
 	"sort"
 	"strings"
 	"sync"
+	"time"
 
 	remoteexecution "github.com/bazelbuild/remote-apis/build/bazel/remote/execution/v2"
 	"github.com/buildbarn/bb-storage/pkg/blobstore/buffer"
@@ -69,6 +70,12 @@ func one(ctx context.Context, w *run.Worker, c *run.Case) {
 		cfg.Hierarchical = false
 	}
 	cfg.Label = "c08"
+	// One case in three runs with the data integrity validation cache of the
+	// real configuration in front of the CAS factory. A cached digest is read
+	// without validation for one (virtual) minute; the clock is advanced past
+	// that before every read that is expected to detect something.
+	valCache := !ac && r.Chance(1, 3)
+	cfg.ValidationCache = valCache
 	cfg.Records = r.Range(500, 1500)
 	cfg.GetAttempts, cfg.PutAttempts = 16, 64
 	if cfg.BlockSectors < 6 {
@@ -197,6 +204,10 @@ func one(ctx context.Context, w *run.Worker, c *run.Case) {
 		}
 		blocks := s.Alloc.Blocks()
 		devOff := blocks[v.loc.AbsBlock].Offset + v.loc.Offset
+		if valCache {
+			s.M.Clock.Advance(2 * time.Minute)
+			w.Count("rounds_with_validation_cache", 1)
+		}
 
 		// Optionally start an upload that is in flight during the detection.
 		var inflight *obj
@@ -315,7 +326,51 @@ func one(ctx context.Context, w *run.Worker, c *run.Case) {
 			}
 			s.M.Blocks.Corrupt(devOff+int64(coff), clen, mask)
 		}
+		finishRot := func() {}
 		quarantinedBefore := s.LBM.VerifSnapshot().TotalBlocksToBeReleased
+		// Variant "detection during a rotation": while the slow reader is
+		// about to hit the corruption, another upload is parked inside the
+		// allocator call of a rotation (store lock held, block list being
+		// extended); the detection's callback runs without the lock.
+		var rotDone chan []*obj
+		if slow != nil && r.Chance(2, 3) {
+			s.Gate.Close("alloc.newblock")
+			rotDone = make(chan []*obj, 1)
+			finishRot = func() {
+				if rotDone != nil {
+					s.Gate.Open("alloc.newblock")
+					objs = append(objs, <-rotDone...)
+					rotDone = nil
+				}
+			}
+			var fill []*obj
+			for k := 0; k < 4; k++ {
+				fill = append(fill, newObj(r.Range(block/2, block*3/4)))
+			}
+			chunks := make([][]int, len(fill))
+			for i, o := range fill {
+				chunks[i] = r.Chunking(len(o.data), false)
+			}
+			go func() {
+				var ok []*obj
+				for i, o := range fill {
+					u := &asm.Upload{Data: o.data, Chunks: chunks[i]}
+					if s.BA.Put(ctx, o.d, u.CASBuffer(o.d)) == nil {
+						ok = append(ok, o)
+					}
+				}
+				rotDone <- ok
+			}()
+			for k := 0; k < 50; k++ {
+				run.Settle(20 * time.Second)
+				if s.Gate.Waiting("alloc.newblock") > 0 || len(rotDone) > 0 {
+					break
+				}
+			}
+			if s.Gate.Waiting("alloc.newblock") > 0 {
+				w.Count("detections_during_parked_rotation", 1)
+			}
+		}
 		// Read the victim, optionally while other readers are active.
 		conc := r.Chance(1, 3) && slow == nil
 		var wg sync.WaitGroup
@@ -343,6 +398,10 @@ func one(ctx context.Context, w *run.Worker, c *run.Case) {
 					break
 				}
 			}
+			// The reader's Close waits for a refresh running in the
+			// background, which needs the store lock: let the parked
+			// rotation go first.
+			finishRot()
 			slow.Close()
 			if rerr == io.EOF {
 				served, rerr = true, nil
@@ -351,6 +410,7 @@ func one(ctx context.Context, w *run.Worker, c *run.Case) {
 			served, rerr = read(v.o)
 		}
 		wg.Wait()
+		finishRot()
 		if served && rerr == nil && !ac {
 			c.Violation("localstore.Get:corrupted-object-served", "reading an object whose stored bytes were corrupted (extent %d, %d bytes at %d) completed successfully", extent, clen, coff)
 		}
